@@ -1069,6 +1069,9 @@ class AgentNotFoundError(Exception):
         self.message = f'Agent "{a_id}" could not be found in Environment "{environment.id}"'
         super(AgentNotFoundError, self).__init__(self.message)
 
+    def __reduce__(self):  # picklable: an error raised in a worker process must reach the caller
+        return type(self), (self.a_id, self.environment)
+
 
 class DuplicateAgentError(Exception):
     """Exception raised for errors when an agent object already exists in an environment.
@@ -1095,6 +1098,9 @@ class DuplicateAgentError(Exception):
         self.environment = environment
         self.message = f'Agent "{a_id}" already exists in Environment "{environment.id}"'
         super(DuplicateAgentError, self).__init__(self.message)
+
+    def __reduce__(self):  # picklable: an error raised in a worker process must reach the caller
+        return type(self), (self.a_id, self.environment)
 
 
 class ComponentNotFoundError(Exception):
@@ -1123,6 +1129,9 @@ class ComponentNotFoundError(Exception):
         self.component_type = component_type
         self.message = f'Agent {agent.id} does not have a component of type {str(component_type)}.'
         super(ComponentNotFoundError, self).__init__(self.message)
+
+    def __reduce__(self):  # picklable: an error raised in a worker process must reach the caller
+        return type(self), (self.agent, self.component_type)
 
 
 class SystemNotFoundError(Exception):
@@ -1160,6 +1169,9 @@ class ModelCompleteError(Exception):
     def __init__(self):
         self.message = 'execute_systems() was called on a model with status "ModelStatus.COMPLETE".'
         super(ModelCompleteError, self).__init__(self.message)
+
+    def __reduce__(self):  # picklable: an error raised in a worker process must reach the caller
+        return type(self), ()
 
 
 import os as _os  # noqa: E402
